@@ -772,6 +772,71 @@ def rule_extension_needs_byte(prog, fixture=False):
 
 
 # ---------------------------------------------------------------- R-C09-7
+def _carried_guard(prog, fn, call, depth=0):
+    """(guard expression, names) if the call is control-dependent - in its own function's loop, or in the
+    loop of a caller - on state carried over from earlier loop passes; ("none", None) if it is reached
+    unconditionally in a per-item loop; (None, None) if no enclosing loop was found."""
+    loop = None
+    for a in fn.ancestors(call):
+        if a.get("k") in ("ForStmt", "WhileStmt", "DoStmt"):
+            loop = a
+            break
+    # guards between the call and the loop (or the function entry)
+    guards = []
+    child = call
+    for a in fn.ancestors(call):
+        if a is loop:
+            break
+        k = a.get("k")
+        if k == "BinaryOperator" and a.get("op") in ("&&", "||") and any(x is child for x in walk(a["c"][1])):
+            guards.append(a["c"][0])
+        elif k == "IfStmt":
+            cond = a["c"][a["parts"]["cond"]]
+            if not any(x is call for x in walk(cond)):
+                guards.append(cond)
+        elif k == "ConditionalOperator" and not any(x is call for x in walk(a["c"][0])):
+            guards.append(a["c"][0])
+        child = a
+    if loop is None:
+        # per-call state only, unless a guard reads a global / static: then look at who calls this function
+        for gd in guards:
+            for x in walk(gd):
+                if x.get("k") == "DeclRefExpr" and x.get("dk") == "Var" and x.get("g"):
+                    return gd, [x.get("n")]
+        if depth >= 3:
+            return None, None
+        res = (None, None)
+        for g in prog.functions.values():
+            for c in g.walk():
+                if c.get("k") == "CallExpr" and c.get("fn") == fn.key and fn in prog.call_targets(g, c):
+                    sub = _carried_guard(prog, g, c, depth + 1)
+                    if sub[0] not in (None, "none"):
+                        return sub
+                    if sub[0] == "none":
+                        res = sub
+        return res
+    inside_decl = {x["d"] for x in walk(loop) if x.get("k") == "VarDecl"}
+    written = set()
+    for x in walk(loop):
+        for d, _ in flow.written_decls(x):
+            written.add(d)
+        if x.get("k") == "UnaryOperator" and x.get("op") in ("++", "--"):
+            d = flow.lvalue_root(x["c"][0])
+            if d is not None:
+                written.add(d)
+    carried = written - inside_decl
+    ind = set()
+    if loop.get("k") == "ForStmt" and "inc" in loop.get("parts", {}):
+        for x in walk(loop["c"][loop["parts"]["inc"]]):
+            if x.get("k") == "DeclRefExpr":
+                ind.add(x.get("d"))
+    for gd in guards:
+        ids = (flow.decl_ids(gd) & carried) - ind
+        if ids:
+            return gd, sorted({x.get("n") for x in walk(gd) if x.get("k") == "DeclRefExpr" and x.get("d") in ids})
+    return "none", None
+
+
 def rule_every_file_decoded(prog, fixture=False):
     r = RuleResult("R-C09-7", "in the loop over the input files, whether a file is decoded does not depend on anything "
                    "carried over from earlier files (exit status so far, counters): each file's listing depends only "
@@ -780,59 +845,15 @@ def rule_every_file_decoded(prog, fixture=False):
         for call in fn.walk():
             if call.get("k") != "CallExpr" or not notpl(call.get("q") or "").endswith("decode_file"):
                 continue
-            loop = None
-            for a in fn.ancestors(call):
-                if a.get("k") in ("ForStmt", "WhileStmt", "DoStmt"):
-                    loop = a
-                    break
-            if loop is None:
-                continue
-            inside_decl = {x["d"] for x in walk(loop) if x.get("k") == "VarDecl"}
-            written = set()
-            for x in walk(loop):
-                for d, _ in flow.written_decls(x):
-                    written.add(d)
-                if x.get("k") == "UnaryOperator" and x.get("op") in ("++", "--"):
-                    d = flow.lvalue_root(x["c"][0])
-                    if d is not None:
-                        written.add(d)
-            carried = written - inside_decl
-            # the loop's own induction (optind / index) is what selects the file: not a dependency on earlier files
-            for nm in ("inc", "cond"):
-                pass
-            guards = []
-            child = call
-            for a in fn.ancestors(call):
-                if a is loop:
-                    break
-                k = a.get("k")
-                if k == "BinaryOperator" and a.get("op") in ("&&", "||") and any(x is child for x in walk(a["c"][1])):
-                    guards.append(a["c"][0])
-                elif k == "IfStmt":
-                    parts = a["parts"]
-                    cond = a["c"][parts["cond"]]
-                    if not any(x is call for x in walk(cond)):
-                        guards.append(cond)
-                elif k == "ConditionalOperator" and not any(x is call for x in walk(a["c"][0])):
-                    guards.append(a["c"][0])
-                child = a
-            bad = None
-            for gd in guards:
-                ids = flow.decl_ids(gd) & carried
-                # the induction variable of the loop itself may appear (e.g. i < argc)
-                ind = set()
-                if loop.get("k") == "ForStmt" and "inc" in loop.get("parts", {}):
-                    for x in walk(loop["c"][loop["parts"]["inc"]]):
-                        if x.get("k") == "DeclRefExpr":
-                            ind.add(x.get("d"))
-                ids -= ind
-                if ids:
-                    bad = (gd, ids)
+            gd, names = _carried_guard(prog, fn, call)
             key = "%s::%s::decode_file" % (fn.relfile(), fn.qn)
-            names = sorted({x.get("n") for x in walk(bad[0]) if x.get("k") == "DeclRefExpr" and x.get("d") in bad[1]}) if bad else []
-            r.add(key, fn.loc(call), bad is None, "decoded unconditionally for every opened file" if bad is None else
+            if gd is None:
+                r.undecided.append("%s: decode_file is not called from a loop over the inputs that this rule can find" % fn.loc(call))
+                continue
+            ok = gd == "none"
+            r.add(key, fn.loc(call), ok, "decoded unconditionally for every opened file" if ok else
                   "decode_file is only called when `%s` allows it, and %s carries over from the files before: after one "
-                  "failing file the remaining files are not listed at all" % (show(bad[0]), ", ".join(names)))
+                  "failing file the remaining files are not listed at all" % (show(gd), ", ".join(names or [])))
     return r
 
 
